@@ -20,15 +20,18 @@ Spec == Init /\ [][Next]_<<fmt, p>>
 
 RoundTrip == Lossless(fmt, p)
 UpIsPixel == IsPixel(Up(fmt, p))
-\* the widening covers the full range: nothing -> 0, everything -> 255, and it is strictly monotone per channel
+\* the widening covers the full range: nothing -> 0, everything -> 255
 FullRange ==
     /\ (fmt = "RGB_565" /\ p = 65535) => Up(fmt, p) = Px(255, 255, 255, 255)
     /\ (fmt = "RGB_565" /\ p = 0) => Up(fmt, p) = Px(255, 0, 0, 0)
     /\ (fmt = "ARGB_4444" /\ p = 65535) => Up(fmt, p) = Px(255, 255, 255, 255)
     /\ (fmt = "ARGB_4444" /\ p = 0) => Up(fmt, p) = Px(0, 0, 0, 0)
-    /\ (fmt = "GRAY_8") => Up(fmt, p) = Px(255, p, p, p)
-\* distinct stored values extract to distinct pixels (a consequence of RoundTrip, stated separately)
-Injective == (p > 0) => Up(fmt, p) # Up(fmt, p - 1)
+\* RoundTrip /\ UpIsPixel /\ (gray is stored in all three channels) with Up evaluated once per state
+PixelInv == LET u == Up(fmt, p)
+            IN /\ Down(fmt, u) = p
+               /\ IsPixel(u)
+               /\ (fmt = "GRAY_8") => u = Px(255, p, p, p)
+               /\ (fmt # "ARGB_4444") => u.a = 255
 
 Tup(q) == <<q.a, q.r, q.g, q.b>>
 \* the table is written in chunks of 256 values (row c holds the values 256*(c-1) .. 256*c - 1)
